@@ -11,7 +11,7 @@ PickSeq(S, maxLen) == LET n == RandomElement(0..maxLen) IN [i \in 1..n |-> Rando
 TRows == {[a |-> a, b |-> b, c |-> c] : a \in {NullV, IntV(0), IntV(1)}, b \in {NullV, StrV("x"), StrV("y")}, c \in {IntV(1), IntV(2)}}
 LRows == {[k |-> k, x |-> x] : k \in {NullV, IntV(0), IntV(1)}, x \in {StrV("p"), StrV("q")}}
 RRows == {[k |-> k, y |-> y] : k \in {NullV, IntV(0), IntV(1)}, y \in {StrV("u"), StrV("v")}}
-GRows == {[k |-> k, j |-> j, v |-> v] : k \in {NullV, IntV(0), IntV(1)}, j \in {StrV("x"), StrV("y")}, v \in {NullV, IntV(2), IntV(-3), IntV(5)}}
+GRows == {[k |-> k, j |-> j, v |-> v] : k \in {NullV, IntV(0), IntV(1)}, j \in {StrV("x"), StrV("y")}, v \in {NullV, IntV(0), IntV(2), IntV(-2), IntV(-3), IntV(5)}}
 MkDB == [t |-> [cols |-> <<"a", "b", "c">>, rows |-> PickSeq(TRows, 4)],
          l |-> [cols |-> <<"k", "x">>, rows |-> PickSeq(LRows, 3)],
          r |-> [cols |-> <<"k", "y">>, rows |-> PickSeq(RRows, 3)],
@@ -20,10 +20,12 @@ MkDB == [t |-> [cols |-> <<"a", "b", "c">>, rows |-> PickSeq(TRows, 4)],
 (* ---- single-source queries over t (or over a subquery / WITH producing columns a, b, c) ---- *)
 A == Col("", "a")  B == Col("", "b")  Cc == Col("", "c")
 Wheres == {None, Bin("=", A, IntE(1)), Un("isnull", A), Bin("or", Bin("=", A, IntE(0)), Bin("=", B, StrE("x"))), Un("not", Bin("=", A, IntE(1))),
-           Bin("<", A, Cc), Bin("and", Un("isnotnull", B), Bin("=", Cc, IntE(1))), Bin(">", Bin("+", A, Cc), IntE(1)), Bin("<=", B, StrE("x"))}
+           Bin("<", A, Cc), Bin("and", Un("isnotnull", B), Bin("=", Cc, IntE(1))), Bin(">", Bin("+", A, Cc), IntE(1)), Bin("<=", B, StrE("x")),
+           Un("not", Bin("and", Bin("=", A, IntE(1)), Bin("=", B, StrE("x")))), Un("not", Bin("or", Bin("=", B, StrE("x")), Bin("=", A, IntE(1))))}
 P(e, as) == [e |-> e, as |-> as]
 Projs == {<<P(A, "a"), P(B, "b"), P(Cc, "c")>>, <<P(Bin("+", A, Cc), "s")>>, <<P(B, "b")>>, <<P(Bin("*", Cc, IntE(2)), "d"), P(A, "a")>>,
-          <<P(Un("isnull", A), "n"), P(B, "b")>>, <<P(Un("neg", A), "m"), P(Cc, "c")>>, <<P(IntE(7), "k"), P(B, "b")>>}
+          <<P(Un("isnull", A), "n"), P(B, "b")>>, <<P(Un("neg", A), "m"), P(Cc, "c")>>, <<P(IntE(7), "k"), P(B, "b")>>,
+          <<P(Bin("and", Bin("=", A, IntE(1)), Bin("=", B, StrE("x"))), "p"), P(Bin("or", Bin("=", A, IntE(1)), Bin("=", B, StrE("x"))), "o")>>}
 O(e, d) == [e |-> e, dir |-> d]
 OrdersFor(proj) == LET c1 == Col("", proj[1].as)
                        allAsc == [i \in 1..Len(proj) |-> O(Col("", proj[i].as), "asc")] IN
@@ -61,11 +63,38 @@ AggSet == {Ag("count", GV, "c", FALSE, TRUE), Ag("count", GV, "cv", FALSE, FALSE
 KeySets == {<<P(GK, "k")>>, <<P(GJ, "j")>>, <<P(GK, "k"), P(GJ, "j")>>, <<P(Bin("+", GK, IntE(1)), "k1")>>, <<>>}
 GFrom == [k |-> "table", name |-> "g", as |-> "g"]
 GWheres == {None, None, Un("isnotnull", GV), Bin("=", GJ, StrE("x"))}
+(* the source may itself be a grouping with a custom trigger: its output stream contains retractions, its meaning is the same *)
+InnerGroup(trig) == [k |-> "group", from |-> GFrom, where |-> None, keys |-> <<P(GK, "k"), P(GJ, "j")>>,
+                     aggs |-> <<Ag("max", GV, "v", FALSE, FALSE)>>, distinct |-> FALSE, order |-> <<>>, limit |-> -1, trig |-> trig]
+GFroms == {GFrom, GFrom, [k |-> "sub", q |-> InnerGroup("COUNTING 1"), as |-> "g"], [k |-> "sub", q |-> InnerGroup("COUNTING 2, ON END OF STREAM"), as |-> "g"]}
 MkGroup == LET a1 == Pick(AggSet) a2 == Pick(AggSet \ {a1}) a3 == Pick(AggSet \ {a1, a2}) IN
-           [k |-> "group", from |-> GFrom, where |-> Pick(GWheres), keys |-> Pick(KeySets), aggs |-> <<a1, a2, a3>>, distinct |-> FALSE, order |-> <<>>, limit |-> -1]
+           [k |-> "group", from |-> Pick(GFroms), where |-> Pick(GWheres), keys |-> Pick(KeySets), aggs |-> <<a1, a2, a3>>, distinct |-> FALSE, order |-> <<>>, limit |-> -1,
+            trig |-> Pick({"", "", "COUNTING 1", "COUNTING 3"})]
 
-MkQuery == CASE Family = "single" -> MkSingle [] Family = "join" -> MkJoin [] Family = "group" -> MkGroup
-Usable(q, DB) == ~(q.k = "group" /\ q.keys = <<>> /\ (IF IsNone(q.where) THEN DB.g.rows ELSE SelectSeq(DB.g.rows, LAMBDA r : TRUE)) = <<>>)
+(* ---- shapes aimed at the optimiser's rewrites (C04) ---- *)
+(* (a) unused aggregates / keys of a grouping subquery, (b) constant and one-sided predicates above a join, (c) filter above filter,
+   (d) join whose inputs are filtered subqueries with unused columns *)
+GSub == [k |-> "sub", q |-> [k |-> "group", from |-> GFrom, where |-> None, keys |-> <<P(GK, "k")>>,
+                             aggs |-> <<Ag("count", GV, "c", FALSE, TRUE), Ag("sum", GV, "s", FALSE, FALSE), Ag("max", GV, "m", FALSE, FALSE), Ag("avg", GV, "av", FALSE, FALSE)>>,
+                             distinct |-> FALSE, order |-> <<>>, limit |-> -1, trig |-> ""], as |-> "q"]
+OptProjs == {<<P(Col("q", "k"), "k"), P(Col("q", "s"), "s")>>, <<P(Col("q", "s"), "s")>>, <<P(Col("q", "m"), "m"), P(Col("q", "c"), "c")>>, <<P(Col("q", "av"), "av")>>,
+             <<P(Col("q", "k"), "k")>>}
+OptWheres == {None, Bin(">", Col("q", "c"), IntE(1)), Un("isnotnull", Col("q", "m")), Bin("=", IntE(1), IntE(0))}
+MkOptGroup == Sel(GSub, Pick(OptWheres), Pick(OptProjs), Pick(BOOLEAN), <<>>, -1)
+OptJWheres == {Bin("=", IntE(1), IntE(0)), Bin("=", IntE(1), IntE(1)), Bin("and", Bin("=", Col("l", "x"), StrE("p")), Bin("=", Col("r", "y"), StrE("u"))),
+               Bin("and", Bin("=", LK, RK), Un("isnotnull", Col("l", "x"))), Bin("or", Bin("=", Col("l", "x"), StrE("p")), Bin("=", Col("r", "y"), StrE("u"))),
+               Bin("and", Bin("<", LK, IntE(1)), Bin("=", IntE(2), IntE(2)))}
+OptJProjs == {JProj, <<P(Col("l", "x"), "x")>>, <<P(RK, "rk"), P(Col("l", "x"), "x")>>, <<P(Col("r", "y"), "y")>>}
+LSub == [k |-> "sub", q |-> Sel([k |-> "table", name |-> "l", as |-> "l"], Un("isnotnull", Col("", "x")), <<P(Col("", "k"), "k"), P(Col("", "x"), "x"), P(Bin("+", Col("", "k"), IntE(1)), "k1")>>, FALSE, <<>>, -1), as |-> "l"]
+OptJFrom(kind, on) == [k |-> "join", kind |-> kind, l |-> Pick({[k |-> "table", name |-> "l", as |-> "l"], LSub}), r |-> [k |-> "table", name |-> "r", as |-> "r"], on |-> on]
+MkOptJoin == LET kind == Pick({"inner", "inner", "lookup", "left"}) IN
+             Sel(OptJFrom(kind, IF kind = "left" THEN Pick(OuterOns) ELSE Pick(Ons \cup {Bin("<", LK, RK)})), Pick(OptJWheres), Pick(OptJProjs), Pick(BOOLEAN), <<>>, -1)
+MkOptNested == LET inner == Sel(Base, Pick(Wheres), Ident, FALSE, <<>>, -1) IN
+               Sel([k |-> "sub", q |-> Sel([k |-> "sub", q |-> inner, as |-> "q"], Pick(Wheres), Ident, FALSE, <<>>, -1), as |-> "z"], Pick(Wheres), Pick(Projs), FALSE, <<>>, -1)
+MkOpt == LET c == Pick(1..3) IN CASE c = 1 -> MkOptGroup [] c = 2 -> MkOptJoin [] c = 3 -> MkOptNested
+
+MkQuery == CASE Family = "single" -> MkSingle [] Family = "join" -> MkJoin [] Family = "group" -> MkGroup [] Family = "opt" -> MkOpt
+\* (unused) Usable(q, DB) == ~(q.k = "group" /\ q.keys = <<>> /\ (IF IsNone(q.where) THEN DB.g.rows ELSE SelectSeq(DB.g.rows, LAMBDA r : TRUE)) = <<>>)
 CaseOf(q, DB) == [sql |-> RenderQ(q), db |-> DB, groups |-> ResultGroups(q, DB), sub |-> ~LimitDetermined(q, DB),
                   n |-> Len(EvalQuery(q, DB).rel.rows), all |-> AllRows(q, DB), ordered |-> Ordered(q)]
 Cases == {LET q == MkQuery DB == MkDB IN CaseOf(q, DB) : i \in 1..N}
